@@ -300,3 +300,9 @@ impl Decoder for Codec {
         }
     }
 }
+
+#[cfg(kani)]
+#[allow(semicolon_in_expressions_from_non_local_macros, unused)]
+mod verif_kani {
+    include!(concat!(env!("VERIF_HARNESS"), "/actix_http/ws_codec.rs"));
+}
